@@ -212,7 +212,78 @@ def replay_cex(rep, pid, unit_name, cex):
     return True
 
 
-def run_property(pid, units, validate_ops, selftests, bounds, assumptions, uncovered, level='model_checking'):
+def unit_pair(spec1, spec2, k, opts):
+    """op1(..) ; op2(..) in one environment, operands drawn from the same symbolic truth tables"""
+    I = load('lib')
+    w = world_for(k)
+    env, mem = table_env(I)
+    b1 = SPECS[spec1](I, w, k, {})
+    outs1 = I.run('BDDEnv', None, b1['method'], [mk_sref(env)] + b1['args'], mem)
+    rets1, pc1, _ = outcome_split(outs1)
+    res = dict(queries=[], method=None)
+    assumptions = list(w.constraints) + list(b1.get('assume', []))
+    cex = None
+    for r1 in rets1:
+        I2 = I
+        b2 = SPECS[spec2](I2, w, k, {'sfx': '_2'})
+        assumptions2 = assumptions + list(b2.get('assume', [])) + list(w.constraints)
+        outs2 = I2.run('BDDEnv', None, b2['method'], [mk_sref(env)] + b2['args'], r1.mem)
+        rets2, pc2, _ = outcome_split(outs2)
+        live = gand(r1.guard, gnot(b1.get('allowed_panic', False)), gnot(b2.get('allowed_panic', False)))
+        q = decide('no panic in the second operation', assumptions2, gand(live, pc2), timeout_s=opts.get('timeout', 250))
+        q['expect'] = 'unsat'
+        m = q.pop('model', None)
+        res['queries'].append(q)
+        for r2 in rets2:
+            negs = []
+            if b2.get('expected') is not None:
+                negs.append(('second result == canonical diagram of its specification', gnot(Veq().eq(r2.value, w.canon(b2['expected'])))))
+            for nm, ng in b2.get('extra', lambda rv: [])(r2.value):
+                negs.append(('second result: ' + nm, ng))
+            for nm, ng in negs:
+                q = decide(nm, assumptions2, gand(live, r2.guard, ng), timeout_s=opts.get('timeout', 250))
+                q['expect'] = 'unsat'
+                m = q.pop('model', None)
+                res['queries'].append(q)
+                if q['result'] == 'sat' and cex is None:
+                    cex = dict(obligation=nm, spec=spec2, k=k, case=dict(kind='pair', first=b1['case'](m), second=b2['case'](m)))
+                elif q['result'] not in ('sat', 'unsat'):
+                    res['status'] = 'inconclusive'
+                    res['error'] = 'solver: ' + q['result']
+    res.update(interp_summary(I))
+    res['cex'] = cex
+    res['sample'] = dict(unit='history %s ; %s k=%d' % (spec1, spec2, k), obligation='second result is the canonical diagram of its specification (same environment, state threaded)')
+    return res
+
+
+def pair_lines(case):
+    return [op_line(case['first']), op_line(case['second'])]
+
+
+
+def replay_pair(rep, pid, name, cex):
+    case = cex['case']
+    lines = pair_lines(case)
+    line = 'seq ' + ' ;; '.join(lines)
+    verdicts = {}
+    for profile in ('dev', 'release'):
+        ans = driver_run([line], profile)[0]
+        verdicts[profile] = judge_op(case['second'], ans) + (ans,)
+    case['obligation'] = cex['obligation']
+    case['driver_line'] = line
+    case['replay'] = {p: {'violates': v[0], 'what': v[1], 'driver_answer': v[2]} for p, v in verdicts.items()}
+    path = save_replay(pid, case)
+    ok = [p for p, v in verdicts.items() if v[0]]
+    if ok:
+        desc = verdicts[ok[0]][1]
+        rep.violations.append(('history:%s' % case['second']['op'], 'after `%s`, `%s` returns a wrong result (%s build): %s' % (lines[0], lines[1], '+'.join(ok), desc), path))
+        print('CONFIRMED %s: %s' % (line, desc))
+    else:
+        rep.inconclusive.append('%s: history counterexample did not reproduce (%s)' % (name, verdicts['dev'][1]))
+        print('NOT-REPRODUCED %s: %s' % (line, verdicts['dev'][1]))
+
+
+def run_property(pid, units, validate_ops, selftests, bounds, assumptions, uncovered, level='model_checking', extra_jobs=()):
     """units: list of (name, spec_name, k, opts)"""
     rep = Report(pid, level)
     rep.bounds = bounds
@@ -235,6 +306,7 @@ def run_property(pid, units, validate_ops, selftests, bounds, assumptions, uncov
     # self-tests run as ordinary units on a mutated MIR; they must come back sat
     for name, spec, k, opts in selftests:
         jobs.append(('selftest:' + name, bddcore.run_op_unit, (spec, k, opts)))
+    jobs += list(extra_jobs)
     results = run_units(jobs)
     st = {}
     for name in list(results):
@@ -269,5 +341,8 @@ def run_property(pid, units, validate_ops, selftests, bounds, assumptions, uncov
     rep.absorb(results)
     for name, r in sorted(results.items()):
         if r.get('cex'):
-            replay_cex(rep, pid, name, r['cex'])
+            if r['cex']['case'].get('kind') == 'pair':
+                replay_pair(rep, pid, name, r['cex'])
+            else:
+                replay_cex(rep, pid, name, r['cex'])
     return rep
